@@ -13,7 +13,7 @@ import (
 //   - stream `yaml`: the conversion index -> (line, excerpt, caret) of yamlParseError.Error vs the model;
 //   - oracle: for fault kinds whose reported place is the faulty line on the unchanged tree, the
 //     LINE printed by the command against the line the fault was injected on.
-var yamlFaults = []string{"  @bad: 1", "k: 1: 2", "k: [1, 2", "k: {a: 1", "? ["}
+var yamlFaults = []string{"  @bad: 1", "k: 1: 2", "k: [1, 2", "k: {a: 1"}
 
 // faults go-yaml reports without any index (plain errors): the command then prints line 1 and an empty message
 var yamlFaultsNoIndex = []string{"k: *unknown", "k: !!int abc"}
@@ -65,7 +65,8 @@ func yamlChecks() {
 		}
 		at := r.Intn(len(ls))
 		if at == 0 || ls[at] == "---" || strings.HasPrefix(ls[at], "  ") || (at+1 < len(ls) && strings.HasPrefix(ls[at+1], "  ")) ||
-			ls[at-1] == "---" || strings.HasPrefix(ls[at-1], "  ") || strings.HasSuffix(ls[at-1], ":") {
+			ls[at-1] == "---" || strings.HasPrefix(ls[at-1], "  ") || strings.HasSuffix(ls[at-1], ":") ||
+			(at+1 < len(ls) && (ls[at+1] == "---" || strings.HasSuffix(ls[at+1], ":"))) {
 			continue // keep the fault at top level so that its place is unambiguous
 		}
 		ls[at] = fault
@@ -117,6 +118,7 @@ func yamlChecks() {
 				key = "yaml-index-counts-characters"
 			}
 		}
+		stderr = strings.ReplaceAll(stderr, tmpDir, "$TMP")
 		ctx.Violate(key, fmt.Sprintf("--yaml-input: fault %q on line %d of %d reported as %s", fault, want, len(ls), clip(strings.ReplaceAll(stderr, "\n", "\\n"), 160)),
 			map[string]any{"fault_line": fault, "line": want, "total_lines": len(ls), "terminator": eolName(eol), "transport": tr.name, "observed": stderr,
 				"input_hex": fmt.Sprintf("%x", clipBytes(text, 100000)), "cmd": "xxd -r -p <<< $input_hex > in.yaml; gojq --yaml-input empty in.yaml"})
